@@ -13,9 +13,11 @@ import (
 )
 
 // C01: several fresh instances of the real IndexedLachesis process one event set in different
-// parents-first orders.
-// input : salt seal nv (id w)* k (kind:seed)*k ; e id cr seq frame parents... ; ...
-// obs   : per instance  I <number of fed events whose Process failed> B... L epoch ldf
+// parents-first orders; one more instance is fed an ancestor-closed strict subset.
+// input : salt sealcode nv (id w)* k (kind:seed | 8:m:seed)*k ; e id cr seq frame parents... ; n ; ...
+//         kind 0..7 see refh.Order; "8:m:seed" = the first m events of the case (creation order is
+//         parents-first, so this is an ancestor-closed subset) in a shuffled parents-first order
+// obs   : per instance  I|S <number of fed events whose Process failed> B... L epoch ldf
 //         (blocks as in C10: B epoch frame atropos sealed ncheaters cheaters...)
 func c01Gen(r *rand.Rand, n int, tier string, emit func(input ...string)) {
 	maxEv := 200
@@ -26,21 +28,27 @@ func c01Gen(r *rand.Rand, n int, tier string, emit func(input ...string)) {
 		s, cfg, kind := refh.RandomScenario(r, maxEv, false)
 		small := tier == "thorough" && i%8 == 7
 		if small {
-			// small scope, exhaustively: every parents-first order of a DAG of <= 7 events
-			for len(s.VIDs) > 3 {
+			// small scope, exhaustively: every parents-first order of a small DAG, forks included
+			for len(s.VIDs) > 4 {
 				s.VIDs, s.Ws = s.VIDs[:len(s.VIDs)-1], s.Ws[:len(s.Ws)-1]
 			}
 			nv := len(s.VIDs)
-			cfg.Lag, cfg.Group, cfg.Cheat = cfg.Lag[:nv], cfg.Group[:nv], make([]bool, nv)
+			s.Seal, s.Pol = 0, 0
+			cfg.Lag, cfg.Group = cfg.Lag[:nv], cfg.Group[:nv]
+			cfg.Cheat = refh.PickCheaters(r, s.Ws, 1)
+			cfg.ForkP = 0.4
 			cfg.Lag[0] = 4
 			cfg.NEvents, cfg.MaxPar, cfg.PartUntil = 6+r.Intn(3), 1+r.Intn(2), 0
 			kind = "exhaustive"
 		}
 		refh.Generate(r, s, cfg)
+		vu.Stat("scn_" + kind)
 		if small {
 			all := refh.LinearExtensions(s, 5041)
-			vu.Stat("scn_" + kind)
 			vu.StatN("linear_extensions", len(all))
+			if refh.Truncated || len(all) > 720 {
+				vu.Stat("linear_extensions_truncated")
+			}
 			for from := 0; from < len(all) && from < 720; from += 60 {
 				extra := []string{}
 				for j := from; j < from+60 && j < len(all); j++ {
@@ -50,17 +58,23 @@ func c01Gen(r *rand.Rand, n int, tier string, emit func(input ...string)) {
 			}
 			continue
 		}
-		vu.Stat("scn_" + kind)
 		vu.Stat("nv_" + strconv.Itoa(len(s.VIDs)))
-		// three independently shuffled orders + two adversarial ones
-		extra := []string{"5"}
+		// three independently shuffled orders, latest-ready-first (deterministic: the driver replays it on
+		// the extracted abft model), one more adversarial order, and a strict ancestor-closed subset
+		extra := []string{"6"}
 		for k := 0; k < 3; k++ {
 			extra = append(extra, "0:"+strconv.FormatInt(r.Int63(), 10))
 		}
-		adv := r.Perm(6)
-		for k := 0; k < 2; k++ {
-			extra = append(extra, strconv.Itoa(1+adv[k])+":"+strconv.FormatInt(r.Int63(), 10))
+		extra = append(extra, "1:0")
+		extra = append(extra, strconv.Itoa(2+r.Intn(5))+":"+strconv.FormatInt(r.Int63(), 10))
+		m := 0
+		if len(s.Evs) > 1 {
+			m = len(s.Evs)/3 + r.Intn(len(s.Evs)-len(s.Evs)/3)
+			if m >= len(s.Evs) {
+				m = len(s.Evs) - 1
+			}
 		}
+		extra = append(extra, "8:"+strconv.Itoa(m)+":"+strconv.FormatInt(r.Int63(), 10))
 		emit(s.Tokens(extra)...)
 	}
 }
@@ -76,48 +90,61 @@ func c01Run(in []string) []string {
 	}
 	var obs []string
 	for i := 0; i < k; i++ {
-		ks := strings.SplitN(extra[1+i], ":", 2)
+		ks := strings.Split(extra[1+i], ":")
 		kind, _ := strconv.Atoi(ks[0])
 		seed := int64(0)
-		if len(ks) > 1 {
-			seed, _ = strconv.ParseInt(ks[1], 10, 64)
+		tag := "I"
+		sc := s
+		if kind == 8 && len(ks) == 3 {
+			// ancestor-closed subset: the first m events, shuffled parents-first
+			m, _ := strconv.Atoi(ks[1])
+			seed, _ = strconv.ParseInt(ks[2], 10, 64)
+			if m > len(s.Evs) {
+				m = len(s.Evs)
+			}
+			sub := *s
+			sub.Evs = s.Evs[:m]
+			sc = &sub
+			kind = 0
+			tag = "S"
+			vu.Stat("order_subset")
+			vu.StatN("subset_events_left_out", len(s.Evs)-m)
+		} else {
+			if len(ks) > 1 {
+				seed, _ = strconv.ParseInt(ks[1], 10, 64)
+			}
+			vu.Stat("order_kind_" + strconv.Itoa(kind%8))
 		}
-		vu.Stat("order_kind_" + strconv.Itoa(kind%8))
-		order := refh.Order(s, kind, seed)
-		inst := refh.NewInst(s)
+		order := refh.Order(sc, kind, seed)
+		inst := refh.NewInst(sc)
 		ids := map[int]*tdag.TestEvent{}
 		name := map[hash.Event]int{}
-		codes := make([]byte, 0, len(order))
+		rej := 0
 		for _, j := range order {
-			ev := s.Evs[j]
+			ev := sc.Evs[j]
 			if ev.Ep != inst.Epoch() {
 				// the epoch of this event is over (sealed by an earlier event of this order) or not
 				// yet open: the application does not feed it
 				vu.Stat("not_fed_after_seal")
 				continue
 			}
-			e := refh.EventOf(s, ev, ids, ev.Ep)
+			e := refh.EventOf(sc, ev, ids, ev.Ep)
 			if e == nil {
-				codes = append(codes, '2')
+				rej++
 				continue
 			}
 			code := inst.Process(e)
-			codes = append(codes, byte('0'+code))
 			if code == 0 {
 				ids[ev.ID] = e
 				name[e.ID()] = ev.ID
+			} else {
+				rej++
 			}
 			if code == 9 {
 				break
 			}
 		}
-		rej := 0
-		for _, c := range codes {
-			if c != '0' {
-				rej++
-			}
-		}
-		obs = append(obs, "I", strconv.Itoa(rej))
+		obs = append(obs, tag, strconv.Itoa(rej))
 		obs = append(obs, inst.BlockTokens(name)...)
 		if i == 0 {
 			vu.StatN("blocks", len(inst.Blocks))
@@ -133,5 +160,6 @@ func c01Run(in []string) []string {
 }
 
 func init() {
+	refh.Stat = vu.Stat
 	vu.Register("C01", &vu.Prop{Gen: c01Gen, Run: c01Run})
 }
